@@ -75,6 +75,24 @@ fn worker(args: &[String]) {
         };
         let r = std::panic::catch_unwind(std::panic::AssertUnwindSafe(|| {
             let mut sink = drive::Sink { emit: &mut emit, ir_dir: ir_dir.as_deref() };
+            // self-test of the isolation machinery (kinds no generator produces)
+            match case.kind.as_str() {
+                "selftest:hang" => {
+                    (sink.emit)(json!({"ev": "input", "id": case.id, "kind": case.kind, "wasm": false, "n": 1, "mods": []}));
+                    loop {
+                        std::thread::sleep(std::time::Duration::from_secs(1));
+                    }
+                }
+                "selftest:abort" => {
+                    (sink.emit)(json!({"ev": "input", "id": case.id, "kind": case.kind, "wasm": false, "n": 1, "mods": []}));
+                    std::process::abort();
+                }
+                "selftest:panic" => {
+                    (sink.emit)(json!({"ev": "input", "id": case.id, "kind": case.kind, "wasm": false, "n": 1, "mods": []}));
+                    panic!("selftest panic");
+                }
+                _ => {}
+            }
             drive::run_case(&case, &mut sink);
         }));
         if let Err(e) = r {
